@@ -6,11 +6,11 @@ import (
 
 func init() {
 	register(&Prop{
-		ID: "C01",
-		Decided: "(1) types.TimeSlot.Contains is the half-open test Start<=t<End under all orderings; (2) in every tumbling-window loop that cuts tw.data, the take predicate is exactly membership in the fired slot and the keep predicate drops taken rows and retains rows of later intervals; (3) the current interval is only ever replaced by NextSlot() outside initialisation (no interval is skipped), and slot constructors tile: NextSlot starts at the current End and every slot ends at start+size, the first slot starts at alignWindowStart(ts,size); (4) the watermark handler extracts a slot only under watermark>=End; (5) the event-time Add discards a row only when IsEventTimeLate(ts) or no timestamp; (6) each taken row is stamped with the slot that selected it; (7) currentSlot is reassigned on every path between extracting the current slot and releasing the lock for delivery; (8) writers of TumblingWindow.data/currentSlot are the owner set; lock discipline of TumblingWindow fields.",
-		NotDecided: "arithmetic of alignWindowStart (truncation for pre-1970 stamps), equality of aggregate values, liveness (that an interval is eventually reported), exactly-once as a count over all schedules, the on-time row earlier than the first slot.",
+		ID:          "C01",
+		Decided:     "(1) types.TimeSlot.Contains is the half-open test Start<=t<End under all orderings; (2) in every tumbling-window loop that cuts tw.data, the take predicate is exactly membership in the fired slot and the keep predicate drops taken rows and retains rows of later intervals; (3) the current interval is only ever replaced by NextSlot() outside initialisation (no interval is skipped), and slot constructors tile: NextSlot starts at the current End and every slot ends at start+size, the first slot starts at alignWindowStart(ts,size); (4) the watermark handler extracts a slot only under watermark>=End; (5) the event-time Add discards a row only when IsEventTimeLate(ts) or no timestamp; (6) each taken row is stamped with the slot that selected it; (7) currentSlot is reassigned on every path between extracting the current slot and releasing the lock for delivery; (8) writers of TumblingWindow.data/currentSlot are the owner set; lock discipline of TumblingWindow fields.",
+		NotDecided:  "arithmetic of alignWindowStart (truncation for pre-1970 stamps), equality of aggregate values, liveness (that an interval is eventually reported), exactly-once as a count over all schedules, the on-time row earlier than the first slot.",
 		Assumptions: []string{"processing-time stamps are taken under tw.mu and slots only advance on ticks (domain ts>=Start for Trigger's keep table is not needed: the table constrains only ts>=Start cases)"},
-		Run: runC01,
+		Run:         runC01,
 	})
 }
 
@@ -30,6 +30,7 @@ func runC01(a *A) {
 		}
 	})
 	a.Rule("shape/slots-tile", 3, func() { a.tumblingSlotShapes("TumblingWindow", "size", "size") })
+	a.Rule("shape/buffer-arrival-order", 4, func() { a.ruleBufferArrivalOrder(a.Named("window", "TumblingWindow")) })
 	a.Rule("shape/advance-by-one", 4, func() {
 		a.ruleAdvanceByOne(a.Named("window", "TumblingWindow"), map[string]string{
 			"(*window.TumblingWindow).Add":   "aligned slot of the first event",
@@ -118,7 +119,9 @@ func (a *A) tumblingSlotShapes(typ, sizeF, alignF string) {
 		})
 	cfs := a.Method("window", typ, "createSlotFromStart")
 	a.ruleSlotShape(cfs,
-		func(st, en *Term) (bool, string) { return st.Kind == "param", "createSlotFromStart must start at its argument;" },
+		func(st, en *Term) (bool, string) {
+			return st.Kind == "param", "createSlotFromStart must start at its argument;"
+		},
 		func(st, en *Term) (bool, string) {
 			return isAddOf(en, st.String(), q, sizeF), "createSlotFromStart must end at start.Add(" + sizeF + ");"
 		})
